@@ -148,7 +148,8 @@ def get_cauchy_point(
     if iprint >= 99 and logger is not None:
         logger.info("---------------- CAUCHY entered-------------------")
 
-    eps_f_sec = 1e-30
+    # machine precision, as in the reference code (f2 = max(epsmch * f2_org, f2))
+    eps_f_sec = np.finfo(float).eps
     x_cp: NDArrayFloat = x.copy()
 
     # To define the breakpoints in each coordinate direction, we compute
@@ -288,7 +289,9 @@ def get_cauchy_point(
     delta_t_min = 0 if delta_t_min < 0 else delta_t_min
     t_old += delta_t_min
 
-    x_cp[t >= t_cur] = (x + t_old * d)[t >= t_cur]
+    # only the variables that are still free move (d is zeroed when a variable is
+    # fixed): one fixed at a breakpoint tied with t_cur must stay on its bound
+    x_cp[d != 0] = (x + t_old * d)[d != 0]
 
     c += delta_t_min * p
 
